@@ -1,7 +1,7 @@
 (* C05: wire fidelity -- parse and serialise are mutually inverse and lengths are truthful. *)
 From Coq Require Import List NArith Lia Bool.
 From Rpgp Require Import Base.Octets Base.Res Frame.Framing Frame.FramingProofs
-  Wire.Fmt Wire.FmtProofs Wire.Packets Wire.PacketsProofs Wire.Wire Wire.WireProofs.
+  Wire.Fmt Wire.FmtProofs Wire.Packets Wire.PacketsProofs Wire.Wire Wire.WireProofs Wire.KeyFlagsObj Wire.KeyFlagsObjProofs.
 Import ListNotations.
 Open Scope N_scope.
 
@@ -52,3 +52,19 @@ Theorem C05_inner_lengths_truthful : forall k g c w b, wf g ->
                  dec_lenpfx k b = Some (c, lenN body, body).
 Proof. exact len_truthful. Qed.
 Print Assumptions C05_inner_lengths_truthful.
+
+(* an object modified through the public API: Key Flags.  Whatever sequence of setters is applied to the default value or to
+   any parsed field, what is written parses back to an equal value and the length query equals what is written *)
+Theorem C05_keyflags_api_roundtrip : forall (start : kf) (ops : list op),
+  (start = kf_default \/ exists b, start = kf_parse b) -> forallb op_ok ops = true ->
+  let f := fold_left (apply true) ops start in
+  kf_parse (kf_ser f) = f /\ kf_write_len f = lenN (kf_ser f).
+Proof. exact api_roundtrip. Qed.
+Print Assumptions C05_keyflags_api_roundtrip.
+
+(* the code before fix "key flags set through the API are written" (setters that do not grow the stored length) *)
+Theorem C05_keyflags_unfixed_refuted :
+  (let f := apply false kf_default {| o_second := true; o_mask := 4; o_val := true |} in kf_parse (kf_ser f) <> f) /\
+  (let f := apply false (kf_parse []) {| o_second := false; o_mask := 2; o_val := true |} in kf_ser f = [] /\ lo f = 2).
+Proof. exact unfixed_refuted. Qed.
+Print Assumptions C05_keyflags_unfixed_refuted.
